@@ -190,8 +190,13 @@ CLAIMED = {
              "value). Every quick run compares the extracted model with the real functions called through "
              "apply_meta on ~450k calls (all strings up to length 4 over a 5-symbol alphabet with a space, a "
              "2-byte and a 4-byte character x all n,k in -1..10; fractional counts/starts; numbers/booleans/"
-             "blanks/errors in every position; ~45k TEXT calls) and evaluates the property's identities on the "
-             "implementation. Known findings: C20-text-half-even, C20-text-double-dot-keyerror.",
+             "blanks/errors in every position; REPLACE with a new_text that is blank / logical / integer / integral "
+             "or other float x positions inside, at and past the end; ~45k TEXT calls) and evaluates the property's "
+             "identities on the implementation - REPLACE(s,n,k,t) = LEFT(s,n-1) & t & MID(s,n+k,LEN(s)) also for "
+             "non-text t (rendered the Excel way: '', TRUE, 3 for 3.0; and against the & operator), on the library "
+             "functions and through ExcelCompiler on small workbooks (t = a reference to an empty cell, constants, "
+             "cells computed as =6/2, =1=1, =10/4, literal expressions; both sides of the identity in one workbook). "
+             "Known findings: C20-text-half-even, C20-text-double-dot-keyerror.",
         design_ref="DESIGN.md 5 C20",
     ),
     'C14': dict(
@@ -453,7 +458,15 @@ CLAIMED['C09'] = dict(
          "implementation with an .xlsx that has a cached value for the dependant only: the retry returns the stored "
          "value; inert predicate C09-stored-partial-retry-returns-stored, reported). ORACLE-ONLY: the error class clause beyond the model's two classes (pending operator error variant, "
          "repaired in /repo by 38e0ba9), iterative mode (known finding C09-iterative-wip-stuck; C06's model), CSE arrays "
-         "and cycles. Correspondence per quick run: 1200 generated workbooks (C01 generator, often extended by a cell that "
+         "and cycles. The failing-function pool of the oracle and of the correspondence is NOSUCHFUNC, made-up dotted "
+         "names and every Excel function name of lib/function_info_data.py that the default modules do not implement "
+         "(computed per run: ~67 dotted names such as NORM.DIST / MODE.SNGL / F.DIST that compile to norm_dist, ~265 "
+         "undotted, also spelled _xlfn.NAME); the cell asked for first is varied (the failing cell, a plain dependant, a "
+         "dependant through a range evaluated while the graph is built), a name sweep runs every dotted name x the three "
+         "first cells on one 9-cell workbook, and 'a retry behaves the same' is checked on class AND message (a built "
+         "target: second attempt = first; the failing cell: every attempt = what a fresh model raises when asked for it "
+         "first). Known finding C09-python-builtin-name (TYPE, COMPLEX, FILTER, STR ...: the name is a Python builtin, "
+         "the cell returns a Python object). Correspondence per quick run: 1200 generated workbooks (C01 generator, often extended by a cell that "
          "reads 2-3 ranges) with 1-3 cells replaced by an unknown function (whole formula or right operand of +) or a "
          "plugin function switched between raising/returning or armed to raise from its k-th call, x 8-14 operations "
          "(evaluate any cell or range, set_value on inputs, repair writes on failing cells): raised-or-returned, the "
@@ -626,7 +639,16 @@ CLAIMED['C12'] = dict(
          "validate_calcs call of the oracle streams (60 workbooks x {consistent x 3 tolerances x 2 output choices, "
          "each formula cell perturbed x 3 tolerances}) plus the two extra streams, ~1000 runs per quick run: the "
          "mismatch dictionary (order, original, calced) and every cell value after the run are compared exactly "
-         "with the extracted loop; plus 400 direct calls of _CellBase.close_enough against its transcription.",
+         "with the extracted loop; plus 400 direct calls of _CellBase.close_enough against its transcription. "
+         "MAGNITUDES: 45 workbooks whose numbers share one magnitude 10^e, e in -18..18 (float inputs, formulas one IEEE "
+         "operation away from the exact model: =A, -A, A*2, A*3, A+B, A-B, A-A = exact 0, SUM, MIN, MAX), each formula "
+         "cell's stored result altered relatively (x(1+d), |d| from 1e-9 to 2: large relatively but tiny absolutely "
+         "such as 4.8e-19 stored as 1.4e-18, and tiny relatively but large absolutely), sign-flipped, replaced by 0, "
+         "or an exact 0 replaced by m*10^e', under tolerance None and explicit tolerances (100x / 0.01x the "
+         "alteration, 1e-20, 1e-8, 1, 1e12 where far above the rounding error) - oracle = the property's rule on exact "
+         "rationals (default: relative 1e-5 for two non-zero numbers, absolute 1e-8 against zero; explicit: absolute), "
+         "cases within a factor 2 of a limit skipped; ~500 such validate_calcs runs replayed on the extracted loop, "
+         "and ~1500 direct close_enough calls over the same magnitudes against oracle and transcription.",
     design_ref="DESIGN.md 5 C12",
 )
 
@@ -774,11 +796,17 @@ CLAIMED['C04'] = dict(
              "read trace (run_traced) with the (reader, read) pairs of a wrapped ExcelCompiler on 260 generated DAG "
              "workbooks x 6-12 evaluate/set_value operations (set equality per evaluate call, ~2000 reads; each "
              "implementation pair is also checked against the generated dependency lists and dep_graph). ORACLE on "
-             "the implementation: 250 PRNG workbooks (2 sheets, 20 reference-form templates incl. defined names, "
-             "multi-colon, union, ROW()/COLUMN(), CSE members, chains) - every traced (formula cell, address read) "
-             "pair is a declared precedent or lies inside a declared range with a member -> range -> dependant "
-             "path in dep_graph, every declared precedent has its edge, and perturbing a non-ancestor input never "
-             "changes a value.",
+             "the implementation: 250 PRNG workbooks (2 sheets whose 3x3 input blocks have blank cells, 21 "
+             "reference-form templates incl. defined names, multi-colon, union, ROW()/COLUMN(), CSE members, "
+             "whole-column ranges A:A / B:C, chains) - every traced (reader, address read) pair (reader = formula "
+             "cell, range node or unbounded-range reference) is a declared precedent or lies inside a declared range "
+             "with a member -> range -> dependant path in dep_graph, every declared precedent and every range "
+             "member, blank or not, has its edge, every cell read while a formula cell is evaluated (through the "
+             "range nodes it reads; for an unbounded range at least the input-block cells of its columns) is an "
+             "ancestor of the formula cell (repaired in /repo by 347fec5: =SUM(A:A) had no member cell as "
+             "ancestor), and perturbing a non-ancestor input never changes a value. OUTSIDE the property's written "
+             "references: a range operator applied to a parenthesised operand, =SUM((A1):C3), is a computed "
+             "reference (precedents A1 and C3, A1:C3 read) - not reported.",
         design_ref="DESIGN.md 5 C04",
     )
 
